@@ -23,6 +23,8 @@ func checkC01(c *Ctx) {
 	c.Rule("C01-R8", "after painting a wide rune, draw re-dirties the hidden column (bounded by the width)")
 	c.Rule("C01-R14", "the RGB values the fitting uses for palette entries (the xterm 256-colour table) are those of the terminal's own palette: every entry's colour count is one whose first entries coincide with that table (0, 8, 16, 256 or direct colour)")
 	c.Expect("C01-R14", 49)
+	c.Rule("C01-R15", "the hyperlink (and title) the application set reaches the terminal as it was given: application text spliced into a capability never passes through the padding stripper (a \"$<5>\" in a URL would be removed)")
+	c.Expect("C01-R15", 2)
 	c.Rule("C01-R13", "the underline attribute bit and the underline style stay in step (the painters draw from the style): every Style method that replaces attrs as a whole also sets ulStyle, every method that sets ulStyle also sets the bit")
 	c.Expect("C01-R13", 2)
 	c.Rule("C01-R12", "LockRegion locks exactly the cells of the rectangle it is given (cells outside it stay paintable)")
@@ -62,6 +64,7 @@ func checkC01(c *Ctx) {
 	}
 	checkStyleCacheReads(c, p, "C01-R9")
 	checkUnderlineViews(c, p, "C01-R13")
+	checkTextNotPadded(c, p, "C01-R15")
 	if db := buildDB(c, p); db != nil {
 		for _, e := range db.entries {
 			n := e.Int["Colors"]
@@ -247,6 +250,11 @@ func checkC01(c *Ctx) {
 	emitters := callsIn(draw, func(n string, _ *ssa.CallCommon) bool {
 		return strings.HasSuffix(n, "tScreen).hideCursor") || strings.HasSuffix(n, "tScreen).clearScreen") || strings.HasSuffix(n, "tScreen).drawCell") ||
 			strings.HasSuffix(n, "tScreen).showCursor") || strings.HasSuffix(n, "tScreen).TPuts")
+	})
+	eachInstr(draw, func(in ssa.Instruction) {
+		if callsTextEmitter(in) {
+			emitters = append(emitters, in)
+		}
 	})
 	okOn := bufOn != nil && len(emitters) >= 3
 	for _, e := range emitters {
